@@ -891,6 +891,16 @@ theorem rsa_pkcs1v15_verify_sign (h : RsaHash) : (rsaPkcs1v15 h).Lawful := by
           simp
         rw [if_pos hv]
 
+open Kit.Crypto in
+/-- RSA encryption of `Kit.Crypto.Rsa`: decryption inverts encryption for RSAES-PKCS1-v1_5 (any
+admissible padding string) and RSAES-OAEP (any hash, label, seed), under the key equation. -/
+theorem rsa_decrypt_encrypt (key : RsaKey) :
+    (∀ msg ps ct, rsaEncryptPkcs1v15 key.n key.e msg ps = some ct →
+      rsaDecryptPkcs1v15 key.n key.d ct = some msg) ∧
+    (∀ (h : RsaHash) label msg seed ct, rsaEncryptOaep key.n key.e h label msg seed = some ct →
+      rsaDecryptOaep key.n key.d h label ct = some msg) :=
+  ⟨rsaDecryptPkcs1v15_encrypt key, rsaDecryptOaep_encrypt key⟩
+
 /-- `sig_verify_sign` has a concrete satisfiable instance: textbook RSA with the toy key
 (n = 187, e = 7, d = 23), dispatched as RS256 with an RSA private key. -/
 example : ∃ sig, signPrivateKey rsaTextbook "RS256" .rsaPriv toyRsaKey [1, 2, 3] [] = .ok sig ∧
